@@ -1,6 +1,7 @@
 from . import COMMON_TB, FLOCQ_AXIOMS_NOTE
 
 CONFIG = dict(
+    also_release=True,
     harness="c19",
     suites=[
         dict(suffix="-p", comparisons=[
